@@ -1,5 +1,6 @@
 import WhatIs.Base.Info
 import WhatIs.Model.Rpm
+import WhatIs.Model.RpmGuard
 /-
   Oracle/C19.lean — `rpm <data> D <ok|err|panic> (H <n> (<tag> s <k> str… | <tag> b <hex> | <tag> n | <tag> i)…)×2
                       (P <blob> <v4 pk hash issuer|- | v3 pk hash issuer | malformed>)…  [G name ver rel arch md5 sha1 sha256 <n> (tag alg keyid)…]`
@@ -131,10 +132,17 @@ def holds (status : String) (g : Option GT) (impl : String) : String :=
   | some _, _ => "FAILS a well-formed package is not described"
 
 def handle (op : String) (args : List String) (impl : String) : Option (String × String) :=
-  if op = "rpm" then
+  if op = "rpmguard" then
+    match args with
+    | [data] => (bytesOfHexStr data).map fun d => (toString (RpmGuard.plausible d), "holds")
+    | _ => none
+  else if op = "rpm" then
     match parseCase.run args with
     | some ((status, pkg, g), _) =>
-      let m := match pkg with
+      let refused := match args.head? >>= bytesOfHexStr with
+        | some d => !RpmGuard.plausible d
+        | none => false
+      let m := if refused then "err" else match pkg with
         | some p => "ok " ++ (rpmFile p).show
         | none => if status = "err" then "err" else "skip"
       some (m, holds status g impl)
